@@ -19,8 +19,43 @@ def showOut : Option (Val × Bool) → Option String
   | none => none
   | some (v, b) => some ((match v with | none => "n" | some i => toString i) ++ "/" ++ (if b then "t" else "f"))
 
+def showVal : Val → String
+  | none => "n"
+  | some i => toString i
+
+def commaOrDash (l : List String) : String := if l.isEmpty then "-" else ",".intercalate l
+
+/-- `c35 st <cap> <ops>`: the internal state after the history (see `tls.ZVC35Dump`). -/
+def showState (c : Cache) : String :=
+  "cap=" ++ toString c.cap ++ " len=" ++ toString c.q.length ++
+  " q=" ++ commaOrDash (c.q.map (fun e => toString e.1 ++ ":" ++ showVal e.2)) ++
+  " m=" ++ commaOrDash ((mKeys c).map toString)
+
+/-- a call token of `c35 acc`: `p<k>:<v>` or `g<k>=<id|n>/<t|f>` -/
+def parseCall (s : String) : Option Call :=
+  match s.splitOn "=" with
+  | [o] => (parseOp o).bind (fun op => match op with | .put _ _ => some (op, none) | .get _ => none)
+  | [o, r] =>
+    match parseOp o, r.splitOn "/" with
+    | some (.get k), [v, b] =>
+      let vv : Option Val := if v == "n" then some none else v.toNat?.map some
+      let bb : Option Bool := if b == "t" then some true else if b == "f" then some false else none
+      match vv, bb with
+      | some v', some b' => some (.get k, some (v', b'))
+      | _, _ => none
+    | _, _ => none
+  | _ => none
+
 def handle (args : List String) : String :=
   match args with
+  | ["st", cap, ops] =>
+    match parseInt cap, (ops.splitOn ",").mapM parseOp with
+    | some c, some os => showState (run (new c) os).1
+    | _, _ => "bad-op"
+  | ["acc", cap, calls] =>
+    match parseInt cap, (calls.splitOn ",").mapM parseCall with
+    | some c, some cs => if accepts (new c) cs then "acc" else "rej"
+    | _, _ => "bad-op"
   | [cap, ops] =>
     match parseInt cap, (ops.splitOn ",").mapM parseOp with
     | some c, some os =>
